@@ -1,6 +1,7 @@
 """C01 — generation terminates and every emitted module is valid Python."""
 from __future__ import annotations
 
+import contextlib
 import copy
 import json
 import time
@@ -106,6 +107,10 @@ def all_strings(doc, key: str) -> list[str]:
     return out
 
 
+# the render-boundary observer (vlib/props/render_probe.py); set by run() for the duration of the campaigns
+PROBE = None
+
+
 def run_case(ck: Check, camp, case: dict) -> None:
     doc, model, opts = case["doc"], case["model"], case["opts"]
     if case.get("set_opts"):  # options whose value is a set travel as sorted lists (JSON); generate() wants the set
@@ -116,8 +121,9 @@ def run_case(ck: Check, camp, case: dict) -> None:
     camp.hit("stream:clean" if clean else "stream:adversarial")
     camp.hit(f"formatters:{'default' if fm else 'off'}")
     camp.hit(f"input:{ift}")
-    res = e2e.run_generate(shape.doc_text(doc), input_file_type=ift, model=model, opts=opts, formatters=fm, timeout=15, target=target,
-                           modular=bool(opts.get("treat_dot_as_module")) or case.get("modular", False))
+    with (PROBE.capture(case) if PROBE is not None else contextlib.nullcontext()):
+        res = e2e.run_generate(shape.doc_text(doc), input_file_type=ift, model=model, opts=opts, formatters=fm, timeout=15, target=target,
+                               modular=bool(opts.get("treat_dot_as_module")) or case.get("modular", False))
     base = {"oracle": "terminates_and_parses", "kind": model, "stream": "clean" if clean else "adversarial"}
     if res.hang:
         ck.fail({**base, "mechanism": "hang"}, case, f"generate() did not return within 15 s")
@@ -141,7 +147,8 @@ def run_case(ck: Check, camp, case: dict) -> None:
                                       timeout=15, target=target, modular=bool(opts.get("treat_dot_as_module")) or case.get("modular", False))
                 if r2.error_type != "RecursionError" and not r2.hang:
                     trig = "ref_pointer_empty_segment"
-            ck.fail({**base, "mechanism": "recursion_error", "trigger": trig}, case, f"RecursionError instead of a reported error: {res.error_msg}")
+            if not ck.fail({**base, "mechanism": "recursion_error", "trigger": trig}, case, f"RecursionError instead of a reported error: {res.error_msg}"):
+                case["_known_finding"] = True
         elif clean and not (fm and res.error_type in ("InvalidInput",)):
             ck.fail({**base, "mechanism": "error_on_supported_input", "error": res.error_type}, case,
                     f"well-formed input inside the documented feature set failed: {res.error_type}: {res.error_msg}")
@@ -153,10 +160,35 @@ def run_case(ck: Check, camp, case: dict) -> None:
         err = e2e.parses(code, target)
         if err:
             site, trig, rendering = attribute(case, target, code)
-            ck.fail({**base, "mechanism": "unparsable", "site": site, "trigger": trig, "rendering": rendering}, case, f"{path} does not parse for target {target or 'default'}: {err}")
+            if not ck.fail({**base, "mechanism": "unparsable", "site": site, "trigger": trig, "rendering": rendering}, case, f"{path} does not parse for target {target or 'default'}: {err}"):
+                case["_known_finding"] = True
             return
     if len(camp.samples) < 2:
         camp.samples.append({"model": model, "opts": opts, "formatters": fm, "target": target, "doc_features": case.get("features")})
+
+
+def required_names(doc) -> list:
+    out = []
+    if isinstance(doc, dict):
+        for k, v in doc.items():
+            if k == "required" and isinstance(v, list):
+                out += [x for x in v if isinstance(x, str)]
+            else:
+                out += required_names(v)
+    elif isinstance(doc, list):
+        for v in doc:
+            out += required_names(v)
+    return out
+
+
+def without_required(doc, drop):
+    """copy of the document with the `required` entries for which `drop(name)` holds removed"""
+    if isinstance(doc, dict):
+        return {k: ([x for x in v if not (isinstance(x, str) and drop(x))] if k == "required" and isinstance(v, list) else without_required(v, drop))
+                for k, v in doc.items()}
+    if isinstance(doc, list):
+        return [without_required(v, drop) for v in doc]
+    return doc
 
 
 def attribute(case: dict, target, code: str) -> tuple[str, str, str]:
@@ -176,6 +208,20 @@ def attribute(case: dict, target, code: str) -> tuple[str, str, str]:
             import re
 
             return "import", "self_ref" if "self_ref" in cyc else "pure_ref_cycle", "empty_import_module" if re.search(r"^import  as \w+$", code, re.M) else "other"
+    import re
+
+    if re.search(r"^\s+None: .*$", code, re.M) and not isinstance(case["doc"], str):
+        # a member without a name was rendered (Jinja prints the missing name as `None`): the placeholder that
+        # `required` entries naming no declared member leave behind
+        run = lambda d: e2e.run_generate(shape.doc_text(d), input_file_type=case.get("input_file_type", "jsonschema"), model=case["model"], opts=case["opts"],  # noqa: E731
+                                         formatters=case.get("formatters"), timeout=15, target=target,
+                                         modular=bool(case["opts"].get("treat_dot_as_module")) or case.get("modular", False))
+        trig = "undeclared_required_name"
+        if "" in required_names(case["doc"]):
+            r = run(without_required(case["doc"], lambda n: n == ""))
+            if r.ok and all(e2e.parses(c, target) is None for p, c in r.files.items() if p.endswith(".py")):
+                trig = "empty_required_name"
+        return "required_placeholder", trig, "nameless_member"
     for what in ("description", "pattern"):
         d2 = neutralise(case["doc"], what)
         if d2 == case["doc"]:
@@ -336,6 +382,10 @@ def run(ck: Check) -> None:
         "Config object has at least one field set (theorem config_class_body_nonempty is conditional on it)",
     ]
     # a campaign that throws is a broken correspondence (guard.campaign), never an infrastructure error
+    global PROBE
+    from . import c01_allof, render_probe
+
+    PROBE = render_probe.Probe()  # observes the render boundary of every generate() run of the campaigns below
     guard.campaign(ck, campaign_repr, 1500 if quick else 20000)
     guard.campaign(ck, campaign_text_slots)
     guard.campaign(ck, campaign_e2e, 150 if quick else 2500, 200 if quick else 3500)
@@ -345,9 +395,16 @@ def run(ck: Check) -> None:
     guard.campaign(ck, c01_extra.campaign_yaml_text, run_case, 120 if quick else 2500)
     guard.campaign(ck, c01_extra.campaign_field_extras, run_case)
     guard.campaign(ck, c01_refs.campaign_pointers, run_case, 140 if quick else 1500, 4 if quick else 30)
+    guard.campaign(ck, c01_allof.campaign_allof_required, run_case, 260 if quick else 3000)
     guard.campaign(ck, _campaign_templates, quick)
     guard.campaign(ck, tpl_search.self_test)
+    probe, PROBE = PROBE, None
+    guard.campaign(ck, render_probe.evaluate, probe, None, _case_json)
     known_findings(ck)
+
+
+def _case_json(case):
+    return {k: v for k, v in case.items() if not k.startswith("_")} if isinstance(case, dict) else case
 
 
 def replay(ck: Check, path: str) -> int:
